@@ -116,6 +116,8 @@ def main():
 
 
 def validate(H, n):
+    if H.worker:
+        return
     replay = H.get_replay()
     ex, it = H.engine()
     ex.frames.append(Frame(ex._new_solver()))
@@ -158,6 +160,8 @@ def validate(H, n):
 
 
 def run_step_config(H, name, depth, alpha):
+    if H.worker:
+        return
     ex, it = H.engine(solver_timeout_ms=600000)
     it.summarize_fns = {"step", "is_value", "open", "unsigned_shift", "signed_shift"}
     sp = I.InputSpace("t", depth, alpha)
@@ -394,6 +398,8 @@ def instantiate(j, model, syms):
 
 
 def run_skeletons(H, quick):
+    if H.worker:
+        return
     replay = H.get_replay()
     for name, src, ranges in SKELETONS:
         r = replay.call({"op": "pipeline", "source": src, "run": False})
